@@ -26,13 +26,21 @@ func WithResolvedDatabase(dbStream io.Reader, pc parser.Config, rc resolver.Conf
 	}
 }
 
+// FinishReport flushes the reporter once the walk is over and returns the walk's
+// error or, when the walk succeeded, the error of writing the report out
+func FinishReport(r interface{ Flush() error }, err error) error {
+	if flushErr := r.Flush(); err == nil {
+		return flushErr
+	}
+	return err
+}
+
 func WalkWithReporter(logStream, dbStream io.Reader, dateFormat string, pc parser.Config, rc resolver.Config, rpc reporter.Config, fc filter.Config, rpCb ReporterCallback) error {
 	return WithResolvedDatabase(dbStream, pc, rc,
 		func(nl shared.DBNodeMap) error {
 			r := rpCb(rpc, nl)
-			defer r.Flush()
 			f := filter.GetIntervalNodeFilter(fc)
-			return WalkNodesInStream(logStream, dateFormat, pc, f, r)
+			return FinishReport(r, WalkNodesInStream(logStream, dateFormat, pc, f, r))
 		})
 }
 
